@@ -137,3 +137,20 @@ def position_idiom(prog, e):
     if cl is None:
         return None
     return e.args[0], cl, cl.local_expr(0, []).strip()
+
+
+def compose(cx, parts):
+    """Evaluate rules of other modules as part of the current rule: [(rule id, function)].  Instances are
+    prefixed with the borrowed rule id; a missing anchor is reported (fail closed) under the current rule."""
+    sub = cx.__class__(cx.prog, cx.profile, cx.prop)
+    for rid, f in parts:
+        sub.rule = rid
+        try:
+            f(sub)
+        except Unrecognised as e:
+            sub.unrecognised('anchor', detail='rule cannot be evaluated on this tree: %s' % e)
+    for r in sub.records:
+        r = dict(r)
+        r['instance'] = r['rule'] + ':' + r['instance']
+        r['rule'] = cx.rule
+        cx.records.append(r)
